@@ -359,12 +359,32 @@ func TestMapFreeSchedule(t *testing.T) {
 		if !res {
 			t.Fatalf("C20: concurrent history of sync2.Map is not linearizable:\n%s", describe(ops))
 		}
-		// Range: every key at most once, only values some operation could have stored
+		// Range: every key at most once, only values some operation stored under that key
+		stored := map[[2]int]bool{}
+		for _, o := range ops {
+			in := o.Input.(mapIn)
+			if in.Op == "store" || in.Op == "los" || in.Op == "losfn" {
+				stored[[2]int{in.Key, in.Val}] = true
+			}
+		}
 		seen := map[int]int{}
-		m.Range(func(k, v int) bool { seen[k]++; return true })
+		m.Range(func(k, v int) bool {
+			seen[k]++
+			if !stored[[2]int{k, v}] {
+				t.Fatalf("C20: Range reports key %d = %d which no operation stored", k, v)
+			}
+			return true
+		})
 		for k, n := range seen {
 			if n > 1 {
 				t.Fatalf("C20: Range visited key %d %d times", k, n)
+			}
+		}
+		// the final state agrees with a plain Load
+		for k := 0; k <= 1; k++ {
+			v, ok := m.Load(k)
+			if (seen[k] == 1) != ok {
+				t.Fatalf("C20: Range and Load disagree about key %d (range saw it %d times, Load ok=%v value %d)", k, seen[k], ok, v)
 			}
 		}
 		overl := 0
